@@ -62,6 +62,13 @@ class Evaluator:
                 return b[i]
             except (TypeError, IndexError, KeyError) as e:
                 raise Crash(type(e).__name__, show(t))
+        if h == "slice":
+            b = self.ev(t[1], loc)
+            lo, hi, st = (self.ev(x, loc) for x in t[2:5])
+            try:
+                return b[lo:hi:st]
+            except TypeError:
+                raise Crash("TypeError", show(t))
         if h in ("tup", "list"):
             vals = [self.ev(x, loc) for x in t[1]]
             return tuple(vals) if h == "tup" else vals
